@@ -6,6 +6,7 @@ pairwise distinct and the annotation of the pruned plan succeeds.
 -/
 import SimplicityModel.PrunePipeline
 import SimplicityModel.PruneThms
+import SimplicityModel.PruneAnnot
 
 set_option linter.unusedSimpArgs false
 set_option linter.unusedVariables false
@@ -177,9 +178,8 @@ theorem pr_unit (t : Ty) : pr t .unit = .unit := by cases t <;> rfl
 
 /-! ### the pipeline -/
 
-/-- **End to end.**  If `prunePipeline` answers `ok q`, the identity roots it labelled the first
-run with are pairwise distinct on the plan, and the pruned plan can be annotated with identity
-roots (`ihrs`, a hash computation that does not fail on elaborable plans), then `q.antiDos` — the
+/-- **End to end.**  If `prunePipeline` answers `ok q` and the identity roots it labelled the first
+run with are pairwise distinct on the plan, then `q.antiDos` — the
 model's own elaboration, run and anti-DoS evaluation of the pruned, re-typed program — answers
 `"ok"`: no elaboration failure, no failing run, every reachable node executed, both sides of
 every remaining case taken. -/
@@ -187,8 +187,7 @@ theorem pipeline_antiDos (jetTy : JetTypes) (jetCmr : String → Option Nat) (je
     (wit : Nat → Option (List Bool)) (p : Plan) (q : Pruned)
     (h : prunePipeline jetTy jetCmr jetSem wit p = .ok q)
     (hinj : ∀ arrows an, inferM jetTy p (fun _ => true) true = .ok arrows → ihrs jetCmr p arrows wit = some an →
-      ∀ j k, j < p.size → k < p.size → (an.getD j (0, 0)).2 = (an.getD k (0, 0)).2 → j = k)
-    (hann : ihrs jetCmr q.plan q.codeArrows (witOfList q.wits wit) ≠ none) :
+      ∀ j k, j < p.size → k < p.size → (an.getD j (0, 0)).2 = (an.getD k (0, 0)).2 → j = k) :
     q.antiDos jetCmr jetSem wit = "ok" := by
   unfold prunePipeline at h
   have hwf : wf p = true := by
@@ -252,7 +251,14 @@ theorem pipeline_antiDos (jetTy : JetTypes) (jetCmr : String → Option Nat) (je
                     (witOfList (prunedWits (prunePlan tr.sides (fun i => (an.getD i (0, 0)).2) (fun i => cm1.getD i 0) p)
                       (reachable (prunePlan tr.sides (fun i => (an.getD i (0, 0)).2) (fun i => cm1.getD i 0) p))
                       wit arrows a1) wit) with
-                | none => exact absurd han2 hann
+                | none =>
+                  have := ihrs_pruned_isSome jetCmr p arrows a1 wit tr.sides (fun i => (an.getD i (0, 0)).2)
+                    (fun i => cm1.getD i 0)
+                    (prunedWits (prunePlan tr.sides (fun i => (an.getD i (0, 0)).2) (fun i => cm1.getD i 0) p)
+                      (reachable (prunePlan tr.sides (fun i => (an.getD i (0, 0)).2) (fun i => cm1.getD i 0) p))
+                      wit arrows a1) (by rw [han]; rfl)
+                  rw [han2] at this
+                  cases this
                 | some an2 =>
                   have hsz := prunePlan_size tr.sides (fun i => (an.getD i (0, 0)).2) (fun i => cm1.getD i 0) p
                   obtain ⟨t', tr2, h1, h2, h3⟩ := antiDoS_driver jetTy p wit cm1 jetSem
